@@ -55,6 +55,12 @@ VARIANTS = [
      "old": "msg.raw_body = bytes(data[PacketLayout.PHL_NAME:])", "new": "msg.raw_body = bytes(data[PacketLayout.PHL_OFFSET:])"},
     {"name": "R1 addon-facing helper writes the deserializer weakref", "file": MSG, "expect": "C02.R1",
      "old": "        message_copy.packet_id = None\n", "new": "        message_copy.packet_id = None\n        message_copy.deserializer = None\n"},
+    {"name": "R1 ack trailer written only when there are acks", "file": SER, "expect": "C02.R1",
+     "old": "        if msg.has_acks:\n            # ACKs are always written", "new": "        if msg.acks:\n            # ACKs are always written"},
+    {"name": "R1 header parser keeps the ack trailer in the body", "file": DES, "expect": "C02.R1",
+     "old": "            data = data[:msg_size]\n", "new": "            pass\n"},
+    {"name": "R1 module helper outside the owners clears the raw body", "file": MSG, "expect": "C02.R1",
+     "old": "def _trunc_repr(val, max_len):\n", "new": "def forget_wire_form(msg):\n    msg.raw_body = None\n\n\ndef _trunc_repr(val, max_len):\n"},
     # ------------------------------------------------------------------ R1 preserving
     {"name": "P R1 rename the saved raw body local in serialize", "expect": "silent", "edits": [
         {"file": SER, "old": "        raw_body = msg.raw_body\n", "new": "        unparsed = msg.raw_body\n"},
@@ -64,6 +70,24 @@ VARIANTS = [
         {"file": SER, "old": "        if raw_body is not None:\n            # This is a deserialized message we never parsed the body of,\n"
                              "            # Just shove the raw body back in.\n            writer.write_bytes(raw_body)\n        else:\n",
          "new": "        if raw_body is not None:\n            writer.write_bytes(raw_body)\n        if raw_body is None:\n"}]},
+    {"name": "P R1 freeze detaches the deserializer through a context manager", "expect": "silent", "edits": [
+        {"file": "hippolyzer/lib/proxy/message_logger.py",
+         "old": "        message.deserializer = None\n        try:\n            self._frozen_message = pickle.dumps(self._message, protocol=pickle.HIGHEST_PROTOCOL)\n"
+                "        finally:\n            message.deserializer = self._deserializer\n",
+         "new": "        with _without_deserializer(message, self._deserializer):\n"
+                "            self._frozen_message = pickle.dumps(self._message, protocol=pickle.HIGHEST_PROTOCOL)\n"},
+        {"file": "hippolyzer/lib/proxy/message_logger.py",
+         "old": "class LLUDPMessageLogEntry(AbstractMessageLogEntry):\n",
+         "new": "import contextlib\n\n\n@contextlib.contextmanager\ndef _without_deserializer(message, saved):\n    message.deserializer = None\n"
+                "    try:\n        yield\n    finally:\n        message.deserializer = saved\n\n\n"
+                "class LLUDPMessageLogEntry(AbstractMessageLogEntry):\n"}]},
+    {"name": "P R1 body re-encoding extracted into a helper", "expect": "silent", "edits": [
+        {"file": SER, "old": "            msg_body = body_writer.buffer\n            if msg.zerocoded:\n                msg_body = self.zero_code_compress(msg_body)\n            writer.write_bytes(msg_body)\n",
+         "new": "            writer.write_bytes(self._finish_body(msg, body_writer))\n"},
+        {"file": SER, "old": "    def _serialize_block(self, writer: se.BufferWriter, tmpl_block: MessageTemplateBlock,\n",
+         "new": "    def _finish_body(self, msg, body_writer):\n        msg_body = body_writer.buffer\n        if msg.zerocoded:\n"
+                "            msg_body = self.zero_code_compress(msg_body)\n        return msg_body\n\n"
+                "    def _serialize_block(self, writer: se.BufferWriter, tmpl_block: MessageTemplateBlock,\n"}]},
     # ------------------------------------------------------------------ R2 breaking
     {"name": "R2 restore removed from the handler (D2)", "file": DES, "expect": "C02.R2",
      "old": "            msg.raw_body = raw_body\n            msg.deserializer = weakref.ref(self)\n            raise\n",
@@ -82,6 +106,8 @@ VARIANTS = [
      "new": "        msg.raw_body = None\n        msg.deserializer = None\n        if msg.zerocoded:\n            raw_body = bytes(raw_body)\n"},
     {"name": "R2 finally restores on success instead of failure", "file": DES, "expect": "C02.R2",
      "old": _TRY_EXCEPT, "new": _TRY_FINALLY_NOFLAG_BAD},
+    {"name": "R2 rollback handler lets BaseException through", "file": DES, "expect": "C02.R2",
+     "old": "        except:\n            # Body couldn't be parsed.", "new": "        except Exception:\n            # Body couldn't be parsed."},
     # ------------------------------------------------------------------ R2 preserving
     {"name": "P R2 restore via try/finally + success flag", "file": DES, "expect": "silent",
      "old": _TRY_EXCEPT, "new": _TRY_FINALLY_FLAG},
@@ -102,6 +128,8 @@ VARIANTS = [
     {"name": "P R2 logging between the clear and the guarded parse", "file": DES, "expect": "silent",
      "old": "        msg.raw_body = None\n        msg.deserializer = None\n",
      "new": "        msg.raw_body = None\n        msg.deserializer = None\n        LOG.debug(\"parsing body of %s\", msg.name)\n"},
+    {"name": "P R2 rollback handler spelled except BaseException", "file": DES, "expect": "silent",
+     "old": "        except:\n            # Body couldn't be parsed.", "new": "        except BaseException:\n            # Body couldn't be parsed."},
     # ------------------------------------------------------------------ R3
     {"name": "R3 to_summary reads _blocks directly", "file": MSG, "expect": "C02.R3",
      "old": "for block_name, block_list in self.blocks.items():", "new": "for block_name, block_list in self._blocks.items():"},
